@@ -1,6 +1,1445 @@
-/- C09 - property theorems (stub: not built yet) -/
+/-
+C09 - Only well-formed trust policy documents are accepted.
+Property theorems only; the model is in `Model/C09.lean`.
+
+Main results
+* `validate_iff_wellformed`  : Validate() accepts a document (OCI or blob) iff `WellFormed` - the
+  property's rule list as a conjunction of quantified rules, no order of checks.
+* `accepted_enforces_integrity` : every statement of an accepted document yields a level; unless
+  the statement is skip the level says integrity = enforce (and nothing else about integrity).
+* `scopes_unique_of_valid`   : (for C08) valid OCI document: no scope twice, one wildcard statement
+  at most, the wildcard alone in its statement.
+* `model_holds`              : the clauses of `Holds` are true of the model's observation, all inputs.
+* pins: `constants_pinned`, `domainRx_pinned`, `repositoryRx_pinned`, `fileNameRx_pinned`, table facts.
+* readable meaning of the leaf predicates: `storeOk_iff`, `isValidFileName_iff`, `isSubsetDN_iff`,
+  `identities_no_subset`, `equal_names_overlap`, `dot_names_refused`.
+
+Rules that `WellFormed` contains because the code enforces them although the statement's list
+does not spell them out: an identity is the wildcard or reads `prefix:value`; every statement of
+an OCI document has at least one scope. Mandatory attributes must have a non-empty value.
+-/
 import NotationModel.Model.C09
+set_option linter.unusedSimpArgs false
+set_option linter.unusedVariables false
 
 namespace NotationModel.C09
+open NotationModel
+
+/-! ### facts about the regenerated tables (re-checked whenever the source changes) -/
+
+/-- the syntax trees the matcher runs on print exactly the expression texts of the source -/
+theorem domainRx_pinned : domainRx.anchored = Facts.domainRegex ∧ domainRx.wf = true := by decide
+theorem repositoryRx_pinned : repositoryRx.anchored = Facts.repositoryRegex ∧ repositoryRx.wf = true := by decide
+theorem fileNameRx_pinned : fileNameRx.anchored = Facts.fileNameRegex ∧ fileNameRx.wf = true := by decide
+
+/-- the literals of `Spec` are the constants of the source -/
+theorem constants_pinned :
+    Facts.wildcard = Spec.wildcard ∧ Facts.x509Subject = Spec.x509Subject ∧
+    Facts.mandatoryDNFields = Spec.mandatoryDNFields ∧ Facts.fileNameRefused = Spec.fileNameRefused := by
+  decide
+
+theorem level_names_nodup : (Facts.levels.map (·.1)).Nodup := by decide
+theorem empty_not_level : "" ∉ Facts.levels.map (·.1) := by decide
+theorem skip_is_level : Facts.levelSkipName ∈ Facts.levels.map (·.1) := by decide
+theorem empty_not_type : "" ∉ Facts.validationTypes := by decide
+theorem empty_not_action : "" ∉ Facts.validationActions := by decide
+theorem skip_literal : Facts.policyCoreSkipLiteral = Facts.levelSkipName := by decide
+theorem custom_not_skip : Facts.customLevelName ≠ Facts.levelSkipName := by decide
+theorem wildcard_no_colon : cut ':' Spec.wildcard = none := by decide
+theorem wildcard_nonempty : Spec.wildcard ≠ [] := by decide
+theorem empty_not_version (k : Kind) : "" ∉ supportedVersions k := by cases k <;> decide
+
+/-- integrity = enforce is in the map and is the only thing the map says about integrity -/
+def EnfIntegrity (e : Enf) : Prop :=
+  (Facts.typeIntegrity, Facts.actionEnforce) ∈ e ∧ ∀ p ∈ e, p.1 = Facts.typeIntegrity → p.2 = Facts.actionEnforce
+
+instance (e : Enf) : Decidable (EnfIntegrity e) := by unfold EnfIntegrity; infer_instance
+
+/-- every level of the table except skip enforces integrity; skip does not -/
+theorem table_enforces_integrity : ∀ l ∈ Facts.levels, l.1 ≠ Facts.levelSkipName → EnfIntegrity l.2 := by decide
+theorem table_skip_skips_integrity : ∀ l ∈ Facts.levels, l.1 = Facts.levelSkipName → ¬ EnfIntegrity l.2 := by decide
+
+/-! ### GetVerificationLevel -/
+
+theorem foldl_level (lvl : String) : ∀ (L : List (String × Enf)) (acc : Option (String × Enf)),
+    (L.foldl (fun acc l => if l.1 == lvl then some l else acc) acc = none ↔ acc = none ∧ ∀ l ∈ L, l.1 ≠ lvl) ∧
+    (∀ b, L.foldl (fun acc l => if l.1 == lvl then some l else acc) acc = some b → (b ∈ L ∧ b.1 = lvl) ∨ acc = some b) := by
+  intro L
+  induction L with
+  | nil => intro acc; simp
+  | cons h t ih =>
+    intro acc
+    simp only [List.foldl_cons]
+    obtain ⟨ih1, ih2⟩ := ih (if h.1 == lvl then some h else acc)
+    constructor
+    · rw [ih1]
+      by_cases hh : h.1 = lvl
+      · simp [hh]
+      · simp [hh]
+    · intro b hb
+      rcases ih2 b hb with ⟨hm, hl⟩ | hacc
+      · exact Or.inl ⟨List.mem_cons_of_mem _ hm, hl⟩
+      · by_cases hh : h.1 = lvl
+        · simp [hh] at hacc
+          subst hacc
+          exact Or.inl ⟨List.mem_cons_self, hh⟩
+        · simp [hh] at hacc
+          exact Or.inr hacc
+
+theorem baseLevel_none (lvl : String) : baseLevel lvl = none ↔ lvl ∉ Facts.levels.map (·.1) := by
+  unfold baseLevel
+  rw [(foldl_level lvl Facts.levels none).1]
+  simp only [true_and, List.mem_map, not_exists, not_and]
+
+theorem baseLevel_some (lvl : String) (b : String × Enf) (h : baseLevel lvl = some b) :
+    b ∈ Facts.levels ∧ b.1 = lvl := by
+  unfold baseLevel at h
+  rcases (foldl_level lvl Facts.levels none).2 b h with h | h
+  · exact h
+  · cases h
+
+theorem find_getD (L : List String) (k : String) (h : "" ∉ L) :
+    ((L.find? (· == k)).getD "" == "") = true ↔ k ∉ L := by
+  cases hf : L.find? (· == k) with
+  | none =>
+    simp only [Option.getD_none, beq_self_eq_true, true_iff]
+    intro hk
+    have := List.find?_eq_none.1 hf k hk
+    simp at this
+  | some a =>
+    have hp := List.find?_some hf
+    have hm := List.mem_of_find?_eq_some hf
+    simp only [beq_iff_eq] at hp
+    subst hp
+    simp only [Option.getD_some, beq_iff_eq]
+    constructor
+    · intro h'; subst h'; exact absurd hm h
+    · intro h'; exact absurd hm h'
+
+theorem applyOverride_ok (kv : KV) (e e' : Enf) :
+    applyOverride kv e = .ok e' ↔ OverrideOk kv ∧ e' = setKey kv.key kv.val e := by
+  unfold applyOverride OverrideOk
+  have h1 := find_getD Facts.validationTypes kv.key empty_not_type
+  have h2 := find_getD Facts.validationActions kv.val empty_not_action
+  by_cases c1 : kv.key ∈ Facts.validationTypes
+  · by_cases c2 : kv.val ∈ Facts.validationActions
+    · have h1' : ((Facts.validationTypes.find? (· == kv.key)).getD "" == "") = false := by
+        cases hb : ((Facts.validationTypes.find? (· == kv.key)).getD "" == "") with
+        | false => rfl
+        | true => exact absurd c1 (h1.1 hb)
+      have h2' : ((Facts.validationActions.find? (· == kv.val)).getD "" == "") = false := by
+        cases hb : ((Facts.validationActions.find? (· == kv.val)).getD "" == "") with
+        | false => rfl
+        | true => exact absurd c2 (h2.1 hb)
+      simp only [h1', h2', Bool.false_eq_true, if_false]
+      by_cases c3 : kv.key = Facts.typeIntegrity
+      · have hb : (kv.key == Facts.typeIntegrity) = true := by simp [c3]
+        simp only [hb, if_true]
+        constructor
+        · intro h; cases h
+        · rintro ⟨⟨_, _, h3, _⟩, _⟩; exact absurd c3 h3
+      · have hb : (kv.key == Facts.typeIntegrity) = false := by simp [c3]
+        simp only [hb, Bool.false_eq_true, if_false]
+        cases c45 : (kv.key != Facts.typeRevocation && kv.val == Facts.actionSkip) with
+        | true =>
+          simp only [if_true]
+          simp only [Bool.and_eq_true, bne_iff_ne, ne_eq, beq_iff_eq] at c45
+          constructor
+          · intro h; cases h
+          · rintro ⟨⟨_, _, _, h4⟩, _⟩; exact absurd (h4 c45.2) c45.1
+        | false =>
+          simp only [Bool.false_eq_true, if_false]
+          have c45' : kv.val = Facts.actionSkip → kv.key = Facts.typeRevocation := by
+            intro hv
+            cases hk : (kv.key != Facts.typeRevocation) with
+            | false => simpa using hk
+            | true => simp [hk, hv] at c45
+          constructor
+          · intro h
+            injection h with h
+            exact ⟨⟨c1, c2, c3, c45'⟩, h.symm⟩
+          · rintro ⟨_, h⟩; rw [h]
+    · have h2' := h2.2 c2
+      have h1' : ((Facts.validationTypes.find? (· == kv.key)).getD "" == "") = false := by
+        cases hb : ((Facts.validationTypes.find? (· == kv.key)).getD "" == "") with
+        | false => rfl
+        | true => exact absurd c1 (h1.1 hb)
+      simp [h1', h2', c2]
+  · have h1' := h1.2 c1
+    simp [h1', c1]
+
+theorem applyOverrides_ok : ∀ (ov : List KV) (e : Enf),
+    (∃ e', applyOverrides ov e = .ok e') ↔ ∀ kv ∈ ov, OverrideOk kv := by
+  intro ov
+  induction ov with
+  | nil => intro e; simp [applyOverrides]
+  | cons kv r ih =>
+    intro e
+    simp only [applyOverrides, List.mem_cons, forall_eq_or_imp]
+    cases h : applyOverride kv e with
+    | error m =>
+      simp only [reduceCtorEq, exists_false, false_iff, not_and]
+      intro hk
+      have := (applyOverride_ok kv e (setKey kv.key kv.val e)).2 ⟨hk, rfl⟩
+      rw [h] at this; cases this
+    | ok e1 =>
+      simp only []
+      rw [ih e1]
+      have := ((applyOverride_ok kv e e1).1 h).1
+      simp [this]
+
+theorem setKey_mem_of_ne (k v : String) (p : String × String) (hk : p.1 ≠ k) :
+    ∀ e : Enf, p ∈ e → p ∈ setKey k v e := by
+  intro e
+  induction e with
+  | nil => intro h; cases h
+  | cons h t ih =>
+    intro hp
+    obtain ⟨k', v'⟩ := h
+    simp only [setKey]
+    by_cases hkk : k' = k
+    · simp only [hkk, beq_self_eq_true, if_true]
+      rcases List.mem_cons.1 hp with hp | hp
+      · subst hp; exact absurd hkk hk
+      · exact List.mem_cons_of_mem _ hp
+    · have : (k' == k) = false := by simp [hkk]
+      simp only [this, Bool.false_eq_true, if_false]
+      rcases List.mem_cons.1 hp with hp | hp
+      · subst hp; exact List.mem_cons_self
+      · exact List.mem_cons_of_mem _ (ih hp)
+
+theorem setKey_mem (k v : String) (p : String × String) :
+    ∀ e : Enf, p ∈ setKey k v e → p ∈ e ∨ p = (k, v) := by
+  intro e
+  induction e with
+  | nil => intro h; simp [setKey] at h; exact Or.inr h
+  | cons h t ih =>
+    intro hp
+    obtain ⟨k', v'⟩ := h
+    simp only [setKey] at hp
+    by_cases hkk : k' = k
+    · simp only [hkk, beq_self_eq_true, if_true] at hp
+      rcases List.mem_cons.1 hp with hp | hp
+      · exact Or.inr hp
+      · exact Or.inl (List.mem_cons_of_mem _ hp)
+    · have : (k' == k) = false := by simp [hkk]
+      simp only [this, Bool.false_eq_true, if_false] at hp
+      rcases List.mem_cons.1 hp with hp | hp
+      · subst hp; exact Or.inl List.mem_cons_self
+      · rcases ih hp with h | h
+        · exact Or.inl (List.mem_cons_of_mem _ h)
+        · exact Or.inr h
+
+theorem setKey_integrity (k v : String) (e : Enf) (hk : k ≠ Facts.typeIntegrity) (h : EnfIntegrity e) :
+    EnfIntegrity (setKey k v e) := by
+  obtain ⟨h1, h2⟩ := h
+  refine ⟨setKey_mem_of_ne k v _ (fun h => hk h.symm) e h1, ?_⟩
+  intro p hp hpi
+  rcases setKey_mem k v p e hp with h | h
+  · exact h2 p h hpi
+  · subst h; exact absurd hpi hk
+
+theorem applyOverrides_integrity : ∀ (ov : List KV) (e e' : Enf),
+    applyOverrides ov e = .ok e' → EnfIntegrity e → EnfIntegrity e' := by
+  intro ov
+  induction ov with
+  | nil => intro e e' h hi; simp [applyOverrides] at h; subst h; exact hi
+  | cons kv r ih =>
+    intro e e' h hi
+    simp only [applyOverrides] at h
+    cases h1 : applyOverride kv e with
+    | error m => rw [h1] at h; cases h
+    | ok e1 =>
+      rw [h1] at h
+      obtain ⟨hok, he1⟩ := (applyOverride_ok kv e e1).1 h1
+      subst he1
+      exact ih _ _ h (setKey_integrity _ _ _ hok.2.2.1 hi)
+
+/-- `GetVerificationLevel` succeeds exactly for a known level with admissible overrides
+(none at all on skip) -/
+theorem effective_ok_iff (lvl : String) (ov : List KV) :
+    (∃ lv, effective lvl ov = .ok lv) ↔
+      lvl ∈ Facts.levels.map (·.1) ∧ (lvl = Facts.levelSkipName → ov = []) ∧ ∀ kv ∈ ov, OverrideOk kv := by
+  unfold effective
+  by_cases h0 : lvl = ""
+  · subst h0
+    simp only [beq_self_eq_true, if_true, reduceCtorEq, exists_false, false_iff]
+    intro h; exact empty_not_level h.1
+  · have hb : (lvl == "") = false := by simp [h0]
+    simp only [hb, Bool.false_eq_true, if_false]
+    cases hbl : baseLevel lvl with
+    | none =>
+      simp only [reduceCtorEq, exists_false, false_iff]
+      intro h; exact (baseLevel_none lvl).1 hbl h.1
+    | some b =>
+      have hmem : lvl ∈ Facts.levels.map (·.1) := by
+        cases hd : decide (lvl ∈ Facts.levels.map (·.1)) with
+        | true => exact of_decide_eq_true hd
+        | false =>
+          have := (baseLevel_none lvl).2 (of_decide_eq_false hd)
+          rw [hbl] at this; cases this
+      obtain ⟨_, hb1⟩ := baseLevel_some lvl b hbl
+      simp only []
+      cases ov with
+      | nil => simp [hmem]
+      | cons kv r =>
+        simp only [List.isEmpty_cons, Bool.false_eq_true, if_false, hb1]
+        by_cases hs : lvl = Facts.levelSkipName
+        · simp [hs]
+        · have hsb : (lvl == Facts.levelSkipName) = false := by simp [hs]
+          simp only [hsb, Bool.false_eq_true, if_false]
+          have := applyOverrides_ok (kv :: r) b.2
+          cases ha : applyOverrides (kv :: r) b.2 with
+          | error m =>
+            rw [ha] at this
+            simp only [reduceCtorEq, exists_false, false_iff] at this ⊢
+            intro h; exact this h.2.2
+          | ok e =>
+            rw [ha] at this
+            have h3 := this.1 ⟨e, rfl⟩
+            simp only [Except.ok.injEq, exists_eq', true_iff]
+            exact ⟨hmem, fun h => absurd h hs, h3⟩
+
+/-- the name of the effective level is "skip" exactly when the statement's level is skip -/
+theorem effective_name (lvl : String) (ov : List KV) (lv : String × Enf)
+    (h : effective lvl ov = .ok lv) : lv.1 = Facts.policyCoreSkipLiteral ↔ lvl = Facts.levelSkipName := by
+  rw [skip_literal]
+  unfold effective at h
+  by_cases h0 : lvl = ""
+  · simp [h0] at h
+  · have hb : (lvl == "") = false := by simp [h0]
+    simp only [hb, Bool.false_eq_true, if_false] at h
+    cases hbl : baseLevel lvl with
+    | none => rw [hbl] at h; cases h
+    | some b =>
+      rw [hbl] at h
+      obtain ⟨_, hb1⟩ := baseLevel_some lvl b hbl
+      simp only [] at h
+      cases ov with
+      | nil =>
+        simp only [List.isEmpty_nil, if_true] at h
+        injection h with h; subst h; rw [hb1]
+      | cons kv r =>
+        simp only [List.isEmpty_cons, Bool.false_eq_true, if_false, hb1] at h
+        by_cases hs : lvl = Facts.levelSkipName
+        · simp [hs] at h
+        · have hsb : (lvl == Facts.levelSkipName) = false := by simp [hs]
+          simp only [hsb, Bool.false_eq_true, if_false] at h
+          cases ha : applyOverrides (kv :: r) b.2 with
+          | error m => rw [ha] at h; cases h
+          | ok e =>
+            rw [ha] at h
+            injection h with h; subst h
+            simp only []
+            constructor
+            · intro h; exact absurd h custom_not_skip
+            · intro h; exact absurd h hs
+
+/-- a level that is not skip enforces integrity, whatever the overrides -/
+theorem effective_integrity (lvl : String) (ov : List KV) (lv : String × Enf)
+    (h : effective lvl ov = .ok lv) (hs : lvl ≠ Facts.levelSkipName) : EnfIntegrity lv.2 := by
+  unfold effective at h
+  by_cases h0 : lvl = ""
+  · simp [h0] at h
+  · have hb : (lvl == "") = false := by simp [h0]
+    simp only [hb, Bool.false_eq_true, if_false] at h
+    cases hbl : baseLevel lvl with
+    | none => rw [hbl] at h; cases h
+    | some b =>
+      rw [hbl] at h
+      obtain ⟨hbm, hb1⟩ := baseLevel_some lvl b hbl
+      have hbi : EnfIntegrity b.2 := table_enforces_integrity b hbm (by rw [hb1]; exact hs)
+      simp only [] at h
+      cases ov with
+      | nil =>
+        simp only [List.isEmpty_nil, if_true] at h
+        injection h with h; subst h; exact hbi
+      | cons kv r =>
+        simp only [List.isEmpty_cons, Bool.false_eq_true, if_false, hb1] at h
+        have hsb : (lvl == Facts.levelSkipName) = false := by simp [hs]
+        simp only [hsb, Bool.false_eq_true, if_false] at h
+        cases ha : applyOverrides (kv :: r) b.2 with
+        | error m => rw [ha] at h; cases h
+        | ok e =>
+          rw [ha] at h
+          injection h with h; subst h
+          exact applyOverrides_integrity _ _ _ ha hbi
+
+/-! ### validateTrustStore -/
+
+theorem validateTrustStore_ok : ∀ ts : List Text,
+    validateTrustStore ts = .ok () ↔ ∀ t ∈ ts, storeOk t = true := by
+  intro ts
+  induction ts with
+  | nil => simp [validateTrustStore]
+  | cons t r ih =>
+    simp only [validateTrustStore, List.mem_cons, forall_eq_or_imp]
+    rw [← ih]
+    unfold storeOk
+    cases hc : cut ':' t with
+    | none => simp
+    | some p =>
+      obtain ⟨ty, nm⟩ := p
+      simp only []
+      cases h1 : Facts.trustStoreTypes.contains ty with
+      | false => simp
+      | true =>
+        cases h2 : isValidFileName nm with
+        | false => simp
+        | true => simp
+
+/-! ### pkix.ParseDistinguishedName -/
+
+def attrPair (a : Attr) : String × String := (aliasType a.typ, a.val)
+
+theorem lookup_isSome (k : String) : ∀ m : DNMap, (m.lookup k).isSome = true ↔ k ∈ m.map (·.1) := by
+  intro m
+  induction m with
+  | nil => simp
+  | cons h t ih =>
+    obtain ⟨k', v'⟩ := h
+    simp only [List.lookup_cons, List.map_cons, List.mem_cons]
+    by_cases hk : k = k'
+    · subst hk; simp
+    · have : (k == k') = false := by simp [hk]
+      simp only [this, ih, hk, false_or]
+
+theorem lookup_eq_some (k v : String) : ∀ m : DNMap, (m.map (·.1)).Nodup →
+    (m.lookup k = some v ↔ (k, v) ∈ m) := by
+  intro m
+  induction m with
+  | nil => simp
+  | cons h t ih =>
+    obtain ⟨k', v'⟩ := h
+    intro hn
+    simp only [List.map_cons, List.nodup_cons] at hn
+    simp only [List.lookup_cons, List.mem_cons, Prod.mk.injEq]
+    by_cases hk : k = k'
+    · subst hk
+      simp only [beq_self_eq_true, Option.some.injEq, true_and]
+      constructor
+      · intro h; exact Or.inl h.symm
+      · rintro (h | h)
+        · exact h.symm
+        · exact absurd (List.mem_map.2 ⟨(k, v), h, rfl⟩) hn.1
+    · have : (k == k') = false := by simp [hk]
+      simp only [this, ih hn.2, hk, false_and, false_or]
+
+theorem dnAttrs_ok : ∀ (as : List Attr) (m m' : DNMap),
+    dnAttrs as m = .ok m' ↔
+      m' = m ++ as.map attrPair ∧ (∀ k ∈ (as.map attrPair).map (·.1), k ∉ m.map (·.1)) ∧
+        ((as.map attrPair).map (·.1)).Nodup := by
+  intro as
+  induction as with
+  | nil => intro m m'; simp [dnAttrs, eq_comm]
+  | cons a r ih =>
+    intro m m'
+    simp only [dnAttrs, dnAttr]
+    cases hl : (m.lookup (aliasType a.typ)).isSome with
+    | true =>
+      have hmem := (lookup_isSome _ m).1 hl
+      simp only [if_true, reduceCtorEq, false_iff, not_and]
+      intro _ hd
+      exact absurd hmem (hd _ (by simp [attrPair]))
+    | false =>
+      have hnm : aliasType a.typ ∉ m.map (·.1) := by
+        intro hm
+        have := (lookup_isSome _ m).2 hm
+        rw [hl] at this; cases this
+      simp only [Bool.false_eq_true, if_false]
+      rw [ih]
+      simp only [List.map_cons, List.mem_cons, forall_eq_or_imp, List.nodup_cons, List.map_append,
+        List.mem_append, List.map_nil, List.mem_singleton, List.append_assoc, List.cons_append,
+        List.nil_append, attrPair, not_or, List.not_mem_nil, not_false_eq_true, and_true]
+      constructor
+      · rintro ⟨h1, h2, h3⟩
+        refine ⟨h1, ⟨hnm, fun k hk => (h2 k hk).1⟩, ?_, h3⟩
+        intro hm
+        exact (h2 _ hm).2 rfl
+      · rintro ⟨h1, ⟨_, h2⟩, h3, h4⟩
+        refine ⟨h1, fun k hk => ⟨h2 k hk, ?_⟩, h4⟩
+        intro hk'
+        subst hk'
+        exact h3 hk
+
+theorem dnAttrs_append : ∀ (a b : List Attr) (m m' : DNMap),
+    dnAttrs (a ++ b) m = .ok m' ↔ ∃ m1, dnAttrs a m = .ok m1 ∧ dnAttrs b m1 = .ok m' := by
+  intro a
+  induction a with
+  | nil => intro b m m'; simp [dnAttrs]
+  | cons x r ih =>
+    intro b m m'
+    simp only [List.cons_append, dnAttrs]
+    cases hx : dnAttr m x with
+    | error e => simp
+    | ok m1 => simp only []; exact ih b m1 m'
+
+theorem dnRdns_ok : ∀ (rdns : List (List Attr)) (m m' : DNMap),
+    dnRdns rdns m = .ok m' ↔ (∀ r ∈ rdns, r.length ≤ 1) ∧ dnAttrs rdns.flatten m = .ok m' := by
+  intro rdns
+  induction rdns with
+  | nil => intro m m'; simp [dnRdns, dnAttrs]
+  | cons rdn r ih =>
+    intro m m'
+    simp only [dnRdns, List.mem_cons, forall_eq_or_imp, List.flatten_cons]
+    by_cases hl : rdn.length > 1
+    · simp only [hl, if_true, reduceCtorEq, false_iff, not_and]
+      intro h; omega
+    · simp only [hl, if_false]
+      have hle : rdn.length ≤ 1 := by omega
+      rw [dnAttrs_append]
+      cases hx : dnAttrs rdn m with
+      | error e => simp
+      | ok m1 =>
+        simp only [Except.ok.injEq, exists_eq_left', hle, true_and]
+        exact ih m1 m'
+
+theorem hasMandatory_iff (m : DNMap) (hn : (m.map (·.1)).Nodup) :
+    hasMandatory m = true ↔ ∀ f ∈ Spec.mandatoryDNFields, ∃ v ∈ m.map (·.2), (f, v) ∈ m ∧ v ≠ "" := by
+  unfold hasMandatory
+  rw [List.all_eq_true]
+  constructor
+  · intro h f hf
+    have := h f hf
+    cases hl : m.lookup f with
+    | none => simp [hl] at this
+    | some v =>
+      simp only [hl, Option.getD_some, bne_iff_ne, ne_eq] at this
+      have hm := (lookup_eq_some f v m hn).1 hl
+      exact ⟨v, List.mem_map.2 ⟨(f, v), hm, rfl⟩, hm, this⟩
+  · intro h f hf
+    obtain ⟨v, _, hm, hv⟩ := h f hf
+    have hl := (lookup_eq_some f v m hn).2 hm
+    simp [hl, hv]
+
+theorem parseDN_ok (value : Text) (ldap : Option (List (List Attr))) (m : DNMap) :
+    parseDN value ldap = .ok m ↔
+      hasInfix Facts.dnRefusedInfix value = false ∧ ldap.isSome = true ∧
+      (∀ r ∈ ldap.getD [], r.length ≤ 1) ∧ m = dnPairs (ldap.getD []) ∧
+      ((dnPairs (ldap.getD [])).map (·.1)).Nodup ∧
+      (∀ f ∈ Spec.mandatoryDNFields, ∃ v ∈ (dnPairs (ldap.getD [])).map (·.2),
+          (f, v) ∈ dnPairs (ldap.getD []) ∧ v ≠ "") := by
+  unfold parseDN
+  cases hi : hasInfix Facts.dnRefusedInfix value with
+  | true => simp
+  | false =>
+    simp only [Bool.false_eq_true, if_false, true_and]
+    cases ldap with
+    | none => simp
+    | some rdns =>
+      simp only [Option.isSome_some, Option.getD_some, true_and]
+      have hp : dnPairs rdns = rdns.flatten.map attrPair := rfl
+      cases hr : dnRdns rdns [] with
+      | error e =>
+        simp only [reduceCtorEq, false_iff]
+        rintro ⟨h1, h2, h3, _⟩
+        have := (dnRdns_ok rdns [] (dnPairs rdns)).2
+          ⟨h1, (dnAttrs_ok _ _ _).2 ⟨by simp [hp], by simp, by rw [← hp]; exact h3⟩⟩
+        rw [hr] at this; cases this
+      | ok m1 =>
+        obtain ⟨h1, h2⟩ := (dnRdns_ok rdns [] m1).1 hr
+        obtain ⟨h3, _, h5⟩ := (dnAttrs_ok _ _ _).1 h2
+        simp only [List.nil_append] at h3
+        rw [← hp] at h3 h5
+        subst h3
+        simp only []
+        cases hm : hasMandatory (dnPairs rdns) with
+        | true =>
+          have := (hasMandatory_iff _ h5).1 hm
+          simp only [if_true, Except.ok.injEq]
+          constructor
+          · intro h; exact ⟨h1, h.symm, h5, this⟩
+          · intro h; exact h.2.1.symm
+        | false =>
+          simp only [Bool.false_eq_true, if_false, reduceCtorEq, false_iff]
+          rintro ⟨_, _, _, h4⟩
+          have := (hasMandatory_iff _ h5).2 h4
+          rw [hm] at this; cases this
+
+/-! ### validateTrustedIdentities -/
+
+/-- what the code demands of a single identity -/
+def IdOk (id : Identity) : Prop :=
+  id.raw ≠ [] ∧ (id.raw ≠ Spec.wildcard → (cut ':' id.raw).isSome = true) ∧ (isX509 id = true → DNOk id)
+
+theorem parseDN_DNOk (id : Identity) (hv : idValue id ≠ []) :
+    (∀ m, parseDN (idValue id) id.dn = .ok m → m = dnMapOf id ∧ DNOk id) ∧
+    (DNOk id → parseDN (idValue id) id.dn = .ok (dnMapOf id)) := by
+  constructor
+  · intro m hm
+    obtain ⟨h1, h2, h3, h4, h5, h6⟩ := (parseDN_ok _ _ _).1 hm
+    exact ⟨h4, hv, h1, h2, h3, h5, h6⟩
+  · rintro ⟨_, h1, h2, h3, h5, h6⟩
+    exact (parseDN_ok _ _ _).2 ⟨h1, h2, h3, rfl, h5, h6⟩
+
+theorem collectDNs_ok : ∀ (ids : List Identity) (acc ms : List DNMap),
+    collectDNs ids acc = .ok ms ↔
+      (∀ id ∈ ids, IdOk id) ∧ ms = acc ++ (ids.filter isX509).map dnMapOf := by
+  intro ids
+  induction ids with
+  | nil => intro acc ms; simp [collectDNs, eq_comm]
+  | cons id r ih =>
+    intro acc ms
+    simp only [collectDNs, List.mem_cons, forall_eq_or_imp]
+    by_cases he : id.raw = []
+    · simp [he, IdOk]
+    · have hne : id.raw.isEmpty = false := by
+        cases h : id.raw with
+        | nil => exact absurd h he
+        | cons _ _ => rfl
+      simp only [hne, Bool.false_eq_true, if_false]
+      by_cases hw : id.raw = Spec.wildcard
+      · have hx : isX509 id = false := by
+          simp [isX509, idPrefix, hw, wildcard_no_colon]
+        have hok : IdOk id := ⟨he, fun h => absurd hw h, by simp [hx]⟩
+        have hb : (id.raw == Spec.wildcard) = true := by simp [hw]
+        simp only [hb, if_true, ih, hok, true_and, List.filter_cons, hx, Bool.false_eq_true, if_false]
+      · have hb : (id.raw == Spec.wildcard) = false := by simp [hw]
+        simp only [hb, Bool.false_eq_true, if_false]
+        cases hc : cut ':' id.raw with
+        | none =>
+          simp only [reduceCtorEq, false_iff, not_and]
+          intro hid
+          have := hid.1.2.1 hw
+          rw [hc] at this; cases this
+        | some p =>
+          obtain ⟨pre, value⟩ := p
+          simp only []
+          have hval : idValue id = value := by simp [idValue, hc]
+          by_cases hp : pre = Spec.x509Subject
+          · have hx : isX509 id = true := by simp [isX509, idPrefix, hc, hp]
+            have hpb : (pre == Spec.x509Subject) = true := by simp [hp]
+            simp only [hpb, if_true]
+            by_cases hv : value = []
+            · simp only [hv, List.isEmpty_nil, if_true, reduceCtorEq, false_iff, not_and]
+              intro hid
+              have := (hid.1.2.2 hx).1
+              rw [hval] at this; exact absurd hv this
+            · have hvb : value.isEmpty = false := by
+                cases h : value with
+                | nil => exact absurd h hv
+                | cons _ _ => rfl
+              simp only [hvb, Bool.false_eq_true, if_false]
+              have hv' : idValue id ≠ [] := by rw [hval]; exact hv
+              obtain ⟨hp1, hp2⟩ := parseDN_DNOk id hv'
+              rw [hval] at hp1 hp2
+              cases hpd : parseDN value id.dn with
+              | error e =>
+                simp only [reduceCtorEq, false_iff, not_and]
+                intro hid
+                have := hp2 (hid.1.2.2 hx)
+                rw [hpd] at this; cases this
+              | ok m =>
+                obtain ⟨hm, hdn⟩ := hp1 m hpd
+                subst hm
+                have hok : IdOk id := ⟨he, fun _ => by simp [hc], fun _ => hdn⟩
+                simp only [ih, hok, true_and, List.filter_cons, hx, if_true, List.map_cons,
+                  List.append_assoc, List.cons_append, List.nil_append]
+          · have hx : isX509 id = false := by simp [isX509, idPrefix, hc, hp]
+            have hpb : (pre == Spec.x509Subject) = false := by simp [hp]
+            have hok : IdOk id := ⟨he, fun _ => by simp [hc], by simp [hx]⟩
+            simp only [hpb, Bool.false_eq_true, if_false, ih, hok, true_and, List.filter_cons, hx]
+
+theorem overlapping_false (ms : List DNMap) : overlapping ms = false ↔ NoOverlap ms := by
+  unfold overlapping NoOverlap
+  simp only [List.any_eq_false, List.mem_range, Bool.and_eq_true, bne_iff_ne, ne_eq, not_and,
+    Bool.not_eq_true]
+
+theorem validateTrustedIdentities_ok (ids : List Identity) :
+    validateTrustedIdentities ids = .ok () ↔ IdentitiesOk ids := by
+  unfold validateTrustedIdentities IdentitiesOk
+  by_cases hw : Spec.wildcard ∈ ids.map (·.raw)
+  · by_cases hl : ids.length > 1
+    · have : (decide (ids.length > 1) && (ids.map (·.raw)).contains Spec.wildcard) = true := by
+        simp [hl, hw]
+      simp only [this, if_true, reduceCtorEq, false_iff, not_and]
+      intro h; have := h hw; omega
+    · have : (decide (ids.length > 1) && (ids.map (·.raw)).contains Spec.wildcard) = false := by
+        simp [hl]
+      have hle : ids.length ≤ 1 := by omega
+      simp only [this, Bool.false_eq_true, if_false, hle, implies_true, true_and]
+      cases hc : collectDNs ids [] with
+      | error e =>
+        simp only [reduceCtorEq, false_iff, not_and]
+        intro hall
+        have := (collectDNs_ok ids [] _).2 ⟨hall, rfl⟩
+        rw [hc] at this; cases this
+      | ok ms =>
+        obtain ⟨hall, hms⟩ := (collectDNs_ok ids [] ms).1 hc
+        simp only [List.nil_append] at hms
+        subst hms
+        simp only []
+        have hall' : ∀ id ∈ ids, IdOk id := hall
+        cases ho : overlapping ((ids.filter isX509).map dnMapOf) with
+        | true =>
+          simp only [if_true, reduceCtorEq, false_iff, not_and]
+          intro _ hno
+          have := (overlapping_false _).2 hno
+          rw [ho] at this; cases this
+        | false =>
+          simp only [Bool.false_eq_true, if_false, true_iff]
+          exact ⟨hall', (overlapping_false _).1 ho⟩
+  · have : (decide (ids.length > 1) && (ids.map (·.raw)).contains Spec.wildcard) = false := by
+      simp [hw]
+    simp only [this, Bool.false_eq_true, if_false, hw, false_implies, true_and]
+    cases hc : collectDNs ids [] with
+    | error e =>
+      simp only [reduceCtorEq, false_iff, not_and]
+      intro hall
+      have := (collectDNs_ok ids [] _).2 ⟨hall, rfl⟩
+      rw [hc] at this; cases this
+    | ok ms =>
+      obtain ⟨hall, hms⟩ := (collectDNs_ok ids [] ms).1 hc
+      simp only [List.nil_append] at hms
+      subst hms
+      simp only []
+      have hall' : ∀ id ∈ ids, IdOk id := hall
+      cases ho : overlapping ((ids.filter isX509).map dnMapOf) with
+      | true =>
+        simp only [if_true, reduceCtorEq, false_iff, not_and]
+        intro _ hno
+        have := (overlapping_false _).2 hno
+        rw [ho] at this; cases this
+      | false =>
+        simp only [Bool.false_eq_true, if_false, true_iff]
+        exact ⟨hall', (overlapping_false _).1 ho⟩
+
+/-! ### validatePolicyCore -/
+
+theorem length_pos_false {α : Type} (l : List α) : decide (l.length > 0) = false ↔ l = [] := by
+  cases l <;> simp
+
+theorem validatePolicyCore_ok (s : Statement) : validatePolicyCore s = .ok () ↔ StatementOk s := by
+  unfold validatePolicyCore StatementOk
+  by_cases hn : s.name = ""
+  · simp [hn]
+  · have hnb : (s.name == "") = false := by simp [hn]
+    simp only [hnb, Bool.false_eq_true, if_false, ne_eq, hn, not_false_eq_true, true_and]
+    have heff := effective_ok_iff s.level s.override
+    cases he : effective s.level s.override with
+    | error e =>
+      rw [he] at heff
+      simp only [reduceCtorEq, exists_false, false_iff] at heff
+      simp only [reduceCtorEq, false_iff]
+      rintro ⟨h1, h2, h3, _⟩
+      exact heff ⟨h1, h2, h3⟩
+    | ok lv =>
+      rw [he] at heff
+      obtain ⟨h1, h2, h3⟩ := heff.1 ⟨lv, rfl⟩
+      have hname := effective_name s.level s.override lv he
+      have h2' : IsSkip s → s.override = [] := h2
+      have hpre : ∀ P : Prop, (s.level ∈ Facts.levels.map (·.1) ∧ (IsSkip s → s.override = []) ∧
+          (∀ kv ∈ s.override, OverrideOk kv) ∧ P) ↔ P :=
+        fun P => ⟨fun h => h.2.2.2, fun h => ⟨h1, h2', h3, h⟩⟩
+      rw [hpre]
+      by_cases hts : s.verifyTimestamp = "" ∨ s.verifyTimestamp = Facts.optionAlways ∨
+          s.verifyTimestamp = Facts.optionAfterCertExpiry
+      · have htb : (s.verifyTimestamp != "" && s.verifyTimestamp != Facts.optionAlways &&
+            s.verifyTimestamp != Facts.optionAfterCertExpiry) = false := by
+          rcases hts with h | h | h <;> simp [h]
+        simp only [htb, Bool.false_eq_true, if_false, hts, true_and]
+        by_cases hs : s.level = Facts.levelSkipName
+        · have hlb : (lv.1 == Facts.policyCoreSkipLiteral) = true := by
+            simp [hname.2 hs]
+          have hsk : IsSkip s := hs
+          simp only [hlb, if_true, hsk, not_true_eq_false, false_implies, and_true, true_implies]
+          cases hst : s.trustStores with
+          | nil =>
+            cases hid : s.identities with
+            | nil => simp
+            | cons _ _ => simp
+          | cons _ _ => simp
+        · have hlb : (lv.1 == Facts.policyCoreSkipLiteral) = false := by
+            cases hb : (lv.1 == Facts.policyCoreSkipLiteral) with
+            | false => rfl
+            | true => exact absurd (hname.1 (by simpa using hb)) hs
+          have hsk : ¬ IsSkip s := hs
+          simp only [hlb, Bool.false_eq_true, if_false, hsk, false_implies, not_false_eq_true,
+            true_implies, true_and]
+          cases hst : s.trustStores with
+          | nil => simp
+          | cons t ts =>
+            cases hid : s.identities with
+            | nil => simp
+            | cons i is =>
+              have : (((t :: ts).length == 0) || ((i :: is).length == 0)) = false := by simp
+              simp only [this, Bool.false_eq_true, if_false, ne_eq, reduceCtorEq, not_false_eq_true,
+                true_and]
+              rw [← validateTrustStore_ok, ← validateTrustedIdentities_ok]
+              cases hv : validateTrustStore (t :: ts) with
+              | error e => simp
+              | ok u => simp
+      · have htb : (s.verifyTimestamp != "" && s.verifyTimestamp != Facts.optionAlways &&
+            s.verifyTimestamp != Facts.optionAfterCertExpiry) = true := by
+          simp only [not_or] at hts
+          simp [hts.1, hts.2.1, hts.2.2]
+        simp [htb, hts]
+
+/-! ### the statement loops and the scope rules -/
+
+theorem validateStatementsOCI_ok : ∀ (ss : List Statement) (seen : List String),
+    validateStatementsOCI ss seen = .ok () ↔
+      (∀ s ∈ ss, StatementOk s) ∧ (∀ s ∈ ss, s.name ∉ seen) ∧ (ss.map (·.name)).Nodup := by
+  intro ss
+  induction ss with
+  | nil => intro seen; simp [validateStatementsOCI]
+  | cons s r ih =>
+    intro seen
+    simp only [validateStatementsOCI, List.mem_cons, forall_eq_or_imp, List.map_cons, List.nodup_cons]
+    by_cases hs : s.name ∈ seen
+    · simp [hs]
+    · have hb : seen.contains s.name = false := by simp [hs]
+      simp only [hb, Bool.false_eq_true, if_false]
+      cases hc : validatePolicyCore s with
+      | error e =>
+        have : ¬ StatementOk s := by
+          intro h; have := (validatePolicyCore_ok s).2 h; rw [hc] at this; cases this
+        simp [this]
+      | ok u =>
+        have hok : StatementOk s := (validatePolicyCore_ok s).1 (by rw [hc])
+        simp only [ih, List.mem_cons, not_or, hok, true_and, hs, not_false_eq_true, List.mem_map,
+          not_exists, not_and]
+        constructor
+        · rintro ⟨h1, h2, h3⟩
+          exact ⟨h1, fun a ha => (h2 a ha).2, fun x hx heq => (h2 x hx).1 heq, h3⟩
+        · rintro ⟨h1, h2, h3, h4⟩
+          exact ⟨h1, fun a ha => ⟨fun heq => h3 a ha heq, h2 a ha⟩, h4⟩
+
+theorem checkScopes_ok : ∀ l : List Text,
+    checkScopes l = .ok () ↔ ∀ sc ∈ l, sc = Spec.wildcard ∨ validScopeFormat sc = true := by
+  intro l
+  induction l with
+  | nil => simp [checkScopes]
+  | cons sc r ih =>
+    simp only [checkScopes, List.mem_cons, forall_eq_or_imp]
+    by_cases hw : sc = Spec.wildcard
+    · subst hw
+      have : (Spec.wildcard != Spec.wildcard && !validScopeFormat Spec.wildcard) = false := by simp
+      simp only [this, Bool.false_eq_true, if_false, ih, true_or, true_and]
+    · cases hv : validScopeFormat sc with
+      | true =>
+        have : (sc != Spec.wildcard && !true) = false := by simp
+        simp only [this, Bool.false_eq_true, if_false, ih, or_true, true_and]
+      | false =>
+        have : (sc != Spec.wildcard && !false) = true := by simp [hw]
+        simp [this, hw]
+
+/-- what the code demands of the scope list of one statement -/
+def StmtScopesOk (s : Statement) : Prop :=
+  s.scopes ≠ [] ∧ (Spec.wildcard ∈ s.scopes → s.scopes.length ≤ 1) ∧
+    ∀ sc ∈ s.scopes, sc = Spec.wildcard ∨ validScopeFormat sc = true
+
+theorem stmtScopes_iff (s : Statement) :
+    StmtScopesOk s ↔ (s.scopes.length == 0) = false ∧
+      (decide (s.scopes.length > 1) && s.scopes.contains Spec.wildcard) = false ∧
+      checkScopes s.scopes = .ok () := by
+  unfold StmtScopesOk
+  rw [checkScopes_ok]
+  have e1 : s.scopes ≠ [] ↔ (s.scopes.length == 0) = false := by
+    cases s.scopes <;> simp
+  have e2 : (Spec.wildcard ∈ s.scopes → s.scopes.length ≤ 1) ↔
+      (decide (s.scopes.length > 1) && s.scopes.contains Spec.wildcard) = false := by
+    by_cases hw : Spec.wildcard ∈ s.scopes
+    · have hc : s.scopes.contains Spec.wildcard = true := by simpa using hw
+      simp only [hw, true_implies, hc, Bool.and_true, decide_eq_false_iff_not]
+      omega
+    · have hc : s.scopes.contains Spec.wildcard = false := by
+        cases hb : s.scopes.contains Spec.wildcard with
+        | false => rfl
+        | true => exact absurd (by simpa using hb) hw
+      simp [hw, hc]
+  rw [e1, e2]
+
+theorem scanScopes_ok : ∀ (ss : List Statement) (acc all : List Text),
+    scanScopes ss acc = .ok all ↔
+      (∀ s ∈ ss, StmtScopesOk s) ∧ all = acc ++ ss.flatMap (·.scopes) := by
+  intro ss
+  induction ss with
+  | nil => intro acc all; simp [scanScopes, eq_comm]
+  | cons s r ih =>
+    intro acc all
+    simp only [scanScopes, List.mem_cons, forall_eq_or_imp, List.flatMap_cons]
+    have hst := stmtScopes_iff s
+    cases c1 : (s.scopes.length == 0) with
+    | true =>
+      simp only [if_true, reduceCtorEq, false_iff]
+      rintro ⟨⟨h, _⟩, _⟩
+      have := (hst.1 h).1; rw [c1] at this; cases this
+    | false =>
+      simp only [Bool.false_eq_true, if_false]
+      cases c2 : (decide (s.scopes.length > 1) && s.scopes.contains Spec.wildcard) with
+      | true =>
+        simp only [if_true, reduceCtorEq, false_iff]
+        rintro ⟨⟨h, _⟩, _⟩
+        have := (hst.1 h).2.1; rw [c2] at this; cases this
+      | false =>
+        simp only [Bool.false_eq_true, if_false]
+        cases c3 : checkScopes s.scopes with
+        | error e =>
+          simp only [reduceCtorEq, false_iff]
+          rintro ⟨⟨h, _⟩, _⟩
+          have := (hst.1 h).2.2; rw [c3] at this; cases this
+        | ok u =>
+          have hok : StmtScopesOk s := hst.2 ⟨c1, c2, c3⟩
+          simp only [ih, List.append_assoc, hok, true_and]
+
+theorem count_check (l : List Text) : l.any (fun k => l.count k > 1) = false ↔ l.Nodup := by
+  rw [List.nodup_iff_count]
+  simp only [List.any_eq_false, gt_iff_lt, decide_eq_true_eq, Nat.not_lt]
+  constructor
+  · intro h a
+    by_cases ha : a ∈ l
+    · exact h a ha
+    · rw [List.count_eq_zero.2 ha]; omega
+  · intro h a _; exact h a
+
+theorem validateRegistryScopes_ok (ss : List Statement) :
+    validateRegistryScopes ss = .ok () ↔
+      (∀ s ∈ ss, StmtScopesOk s) ∧ (ss.flatMap (·.scopes)).Nodup := by
+  unfold validateRegistryScopes
+  cases hs : scanScopes ss [] with
+  | error e =>
+    simp only [reduceCtorEq, false_iff, not_and]
+    intro h
+    have := (scanScopes_ok ss [] _).2 ⟨h, rfl⟩
+    rw [hs] at this; cases this
+  | ok all =>
+    obtain ⟨h1, h2⟩ := (scanScopes_ok ss [] all).1 hs
+    simp only [List.nil_append] at h2
+    subst h2
+    simp only []
+    cases hc : (ss.flatMap (·.scopes)).any (fun k => (ss.flatMap (·.scopes)).count k > 1) with
+    | true =>
+      simp only [if_true, reduceCtorEq, false_iff, not_and]
+      intro _ hn
+      have := (count_check _).2 hn
+      rw [hc] at this; cases this
+    | false =>
+      simp only [Bool.false_eq_true, if_false, true_iff]
+      exact ⟨h1, (count_check _).1 hc⟩
+
+theorem validateStatementsBlob_ok : ∀ (ss : List Statement) (seen : List String) (found : Bool),
+    validateStatementsBlob ss seen found = .ok () ↔
+      (∀ s ∈ ss, StatementOk s) ∧ (∀ s ∈ ss, s.name ∉ seen) ∧ (ss.map (·.name)).Nodup ∧
+      (ss.filter (·.isGlobal)).length + (if found then 1 else 0) ≤ 1 ∧
+      (∀ s ∈ ss, s.isGlobal = true → ¬ IsSkip s) := by
+  intro ss
+  induction ss with
+  | nil => intro seen found; cases found <;> simp [validateStatementsBlob]
+  | cons s r ih =>
+    intro seen found
+    simp only [validateStatementsBlob, List.mem_cons, forall_eq_or_imp, List.map_cons, List.nodup_cons]
+    by_cases hs : s.name ∈ seen
+    · simp [hs]
+    · have hb : seen.contains s.name = false := by simp [hs]
+      simp only [hb, Bool.false_eq_true, if_false]
+      cases hc : validatePolicyCore s with
+      | error e =>
+        have : ¬ StatementOk s := by
+          intro h; have := (validatePolicyCore_ok s).2 h; rw [hc] at this; cases this
+        simp [this]
+      | ok u =>
+        have hok : StatementOk s := (validatePolicyCore_ok s).1 (by rw [hc])
+        have hnames : ∀ P0 P Q : Prop,
+            ((P0 ∧ (∀ a ∈ r, a.name ∉ s.name :: seen) ∧ (r.map (·.name)).Nodup ∧ P ∧ Q) ↔
+             (P0 ∧ (s.name ∉ seen ∧ ∀ a ∈ r, a.name ∉ seen) ∧ (s.name ∉ r.map (·.name) ∧ (r.map (·.name)).Nodup) ∧ P ∧ Q)) := by
+          intro P0 P Q
+          simp only [List.mem_cons, not_or, List.mem_map, not_exists, not_and]
+          constructor
+          · rintro ⟨h1, h2, h3, h4⟩
+            exact ⟨h1, ⟨hs, fun a ha => (h2 a ha).2⟩, ⟨fun x hx heq => (h2 x hx).1 heq, h3⟩, h4⟩
+          · rintro ⟨h1, ⟨_, h2⟩, ⟨h3, h4⟩, h5⟩
+            exact ⟨h1, fun a ha => ⟨fun heq => h3 a ha heq, h2 a ha⟩, h4, h5⟩
+        simp only []
+        cases hg : s.isGlobal with
+        | false =>
+          simp only [Bool.false_eq_true, if_false, ih, hok, true_and, List.filter_cons, hg,
+            false_implies]
+          exact hnames _ _ _
+        | true =>
+          simp only [if_true, List.filter_cons, hg, List.length_cons, true_implies, hok, true_and]
+          cases found with
+          | true =>
+            simp only [if_true, reduceCtorEq, false_iff]
+            rintro ⟨_, _, _, h, _⟩; omega
+          | false =>
+            simp only [Bool.false_eq_true, if_false]
+            by_cases hsk : s.level = Facts.levelSkipName
+            · have : (s.level == Facts.levelSkipName) = true := by simp [hsk]
+              simp only [this, if_true, reduceCtorEq, false_iff]
+              rintro ⟨_, _, _, _, h, _⟩; exact h hsk
+            · have : (s.level == Facts.levelSkipName) = false := by simp [hsk]
+              have hsk' : ¬ IsSkip s := hsk
+              simp only [this, Bool.false_eq_true, if_false, ih, if_true, hsk', not_false_eq_true,
+                true_and, Nat.add_zero]
+              exact hnames _ _ _
+
+/-! ### the property theorems -/
+
+theorem isOk_iff (x : Except String Unit) : isOk x = true ↔ x = .ok () := by
+  cases x with
+  | error e => simp [isOk]
+  | ok u => simp [isOk]
+
+theorem version_ok (k : Kind) (v : String) :
+    ((v == "") = false ∧ (!(supportedVersions k).contains v) = false) ↔ v ∈ supportedVersions k := by
+  constructor
+  · rintro ⟨_, h⟩; simpa using h
+  · intro h
+    refine ⟨?_, by simpa using h⟩
+    cases hb : (v == "") with
+    | false => rfl
+    | true =>
+      have : v = "" := by simpa using hb
+      subst this
+      exact absurd h (empty_not_version k)
+
+theorem validateOCI_iff (d : Doc) : validateOCI d = .ok () ↔ WellFormed .oci d := by
+  unfold validateOCI WellFormed
+  have hv := version_ok .oci d.version
+  simp only [supportedVersions] at hv
+  simp only [supportedVersions, reduceCtorEq, false_implies, and_true, true_implies]
+  cases c1 : (d.version == "") with
+  | true =>
+    simp only [if_true, reduceCtorEq, false_iff]
+    intro h; have := (hv.2 h.1).1; rw [c1] at this; cases this
+  | false =>
+    simp only [Bool.false_eq_true, if_false]
+    cases c2 : (!Facts.supportedOCIPolicyVersions.contains d.version) with
+    | true =>
+      simp only [if_true, reduceCtorEq, false_iff]
+      intro h; have := (hv.2 h.1).2; rw [c2] at this; cases this
+    | false =>
+      have hver := hv.1 ⟨c1, c2⟩
+      simp only [Bool.false_eq_true, if_false, hver, true_and]
+      cases hst : d.statements with
+      | nil => simp
+      | cons s r =>
+        have : ((s :: r).length == 0) = false := by simp
+        simp only [this, Bool.false_eq_true, if_false, ne_eq, reduceCtorEq, not_false_eq_true, true_and]
+        cases hl : validateStatementsOCI (s :: r) [] with
+        | error e =>
+          simp only [reduceCtorEq, false_iff]
+          rintro ⟨h1, h2, _⟩
+          have := (validateStatementsOCI_ok (s :: r) []).2 ⟨h2, by simp, h1⟩
+          rw [hl] at this; cases this
+        | ok u =>
+          obtain ⟨h1, _, h3⟩ := (validateStatementsOCI_ok (s :: r) []).1 (by rw [hl])
+          simp only []
+          rw [validateRegistryScopes_ok]
+          unfold ScopesOk
+          rw [hst]
+          constructor
+          · rintro ⟨h4, h5⟩; exact ⟨h3, h1, h4, h5⟩
+          · rintro ⟨_, _, h4, h5⟩; exact ⟨h4, h5⟩
+
+theorem validateBlob_iff (d : Doc) : validateBlob d = .ok () ↔ WellFormed .blob d := by
+  unfold validateBlob WellFormed
+  have hv := version_ok .blob d.version
+  simp only [supportedVersions] at hv
+  simp only [supportedVersions, reduceCtorEq, false_implies, true_and, true_implies]
+  cases c1 : (d.version == "") with
+  | true =>
+    simp only [if_true, reduceCtorEq, false_iff]
+    intro h; have := (hv.2 h.1).1; rw [c1] at this; cases this
+  | false =>
+    simp only [Bool.false_eq_true, if_false]
+    cases c2 : (!Facts.supportedBlobPolicyVersions.contains d.version) with
+    | true =>
+      simp only [if_true, reduceCtorEq, false_iff]
+      intro h; have := (hv.2 h.1).2; rw [c2] at this; cases this
+    | false =>
+      have hver := hv.1 ⟨c1, c2⟩
+      simp only [Bool.false_eq_true, if_false, hver, true_and]
+      cases hst : d.statements with
+      | nil => simp
+      | cons s r =>
+        have : ((s :: r).length == 0) = false := by simp
+        simp only [this, Bool.false_eq_true, if_false, ne_eq, reduceCtorEq, not_false_eq_true, true_and]
+        rw [validateStatementsBlob_ok]
+        unfold GlobalOk
+        rw [hst]
+        simp only [Bool.false_eq_true, if_false, Nat.add_zero, List.not_mem_nil, not_false_eq_true,
+          implies_true, true_and]
+        constructor
+        · rintro ⟨h1, h2, h3, h4⟩; exact ⟨h2, h1, h3, h4⟩
+        · rintro ⟨h2, h1, h3, h4⟩; exact ⟨h1, h2, h3, h4⟩
+
+/-- **C09, first sentence.** A policy document is accepted iff it obeys every structural rule. -/
+theorem validate_iff_wellformed (k : Kind) (d : Doc) : validate k d = .ok () ↔ WellFormed k d := by
+  cases k with
+  | oci => exact validateOCI_iff d
+  | blob => exact validateBlob_iff d
+
+theorem isOk_validate (k : Kind) (d : Doc) : isOk (validate k d) = decide (WellFormed k d) := by
+  cases h : isOk (validate k d) with
+  | true =>
+    have := (validate_iff_wellformed k d).1 ((isOk_iff _).1 h)
+    simp [this]
+  | false =>
+    have : ¬ WellFormed k d := by
+      intro hw
+      have := (isOk_iff _).2 ((validate_iff_wellformed k d).2 hw)
+      rw [h] at this; cases this
+    simp [this]
+
+/-- **C09, second sentence.** Every statement of an accepted document yields a level, and the level
+enforces integrity unless the statement is skip. -/
+theorem accepted_enforces_integrity (k : Kind) (d : Doc) (h : validate k d = .ok ()) :
+    ∀ s ∈ d.statements, ∃ lv, effective s.level s.override = .ok lv ∧ (¬ IsSkip s → EnfIntegrity lv.2) := by
+  intro s hs
+  obtain ⟨_, _, _, hall, _⟩ := (validate_iff_wellformed k d).1 h
+  obtain ⟨_, h2, h3, h4, _⟩ := hall s hs
+  obtain ⟨lv, hlv⟩ := (effective_ok_iff s.level s.override).2 ⟨h2, h3, h4⟩
+  exact ⟨lv, hlv, fun hsk => effective_integrity _ _ _ hlv hsk⟩
+
+theorem wildcard_at_most_once (w : Text) : ∀ ss : List Statement, (ss.flatMap (·.scopes)).Nodup →
+    (ss.filter (fun s => decide (w ∈ s.scopes))).length ≤ 1 := by
+  intro ss
+  induction ss with
+  | nil => intro _; simp
+  | cons s r ih =>
+    intro hn
+    simp only [List.flatMap_cons] at hn
+    obtain ⟨_, h2, h3⟩ := List.nodup_append.1 hn
+    simp only [List.filter_cons]
+    by_cases hw : w ∈ s.scopes
+    · simp only [hw, decide_true, if_true, List.length_cons]
+      have : r.filter (fun s => decide (w ∈ s.scopes)) = [] := by
+        rw [List.filter_eq_nil_iff]
+        intro s' hs'
+        simp only [decide_eq_true_eq]
+        intro hw'
+        exact h3 w hw w (List.mem_flatMap.2 ⟨s', hs', hw'⟩) rfl
+      simp [this]
+    · simp only [hw, decide_false, Bool.false_eq_true, if_false]
+      exact ih h2
+
+/-- **exported to C08.** In a valid OCI document no scope occurs twice (anywhere), and at most one
+statement carries the wildcard scope. -/
+theorem scopes_unique_of_valid (d : Doc) (h : validate .oci d = .ok ()) :
+    (d.statements.flatMap (·.scopes)).Nodup ∧
+    (d.statements.filter (fun s => decide (Spec.wildcard ∈ s.scopes))).length ≤ 1 ∧
+    ∀ s ∈ d.statements, s.scopes ≠ [] ∧ (Spec.wildcard ∈ s.scopes → s.scopes = [Spec.wildcard]) := by
+  obtain ⟨_, _, _, _, hsc, _⟩ := (validate_iff_wellformed .oci d).1 h
+  obtain ⟨h1, h2⟩ := hsc rfl
+  refine ⟨h2, wildcard_at_most_once _ _ h2, ?_⟩
+  intro s hs
+  obtain ⟨hne, hw, _⟩ := h1 s hs
+  refine ⟨hne, fun hmem => ?_⟩
+  have hl := hw hmem
+  cases hsc : s.scopes with
+  | nil => exact absurd hsc hne
+  | cons x xs =>
+    rw [hsc] at hl hmem
+    cases xs with
+    | nil => simp at hmem; rw [hmem]
+    | cons y ys => simp at hl
+
+/-! ### the observation: sorting does not change what the map says about integrity -/
+
+theorem any_insertKV (p : KV → Bool) (a : KV) : ∀ l : List KV, (insertKV a l).any p = (p a || l.any p) := by
+  intro l
+  induction l with
+  | nil => simp [insertKV]
+  | cons h t ih =>
+    simp only [insertKV]
+    split
+    · simp
+    · simp only [List.any_cons, ih]
+      cases p a <;> cases p h <;> simp
+
+theorem any_sortKV (p : KV → Bool) : ∀ l : List KV, (sortKV l).any p = l.any p := by
+  intro l
+  induction l with
+  | nil => rfl
+  | cons h t ih => simp [sortKV, any_insertKV, ih]
+
+theorem all_insertKV (p : KV → Bool) (a : KV) : ∀ l : List KV, (insertKV a l).all p = (p a && l.all p) := by
+  intro l
+  induction l with
+  | nil => simp [insertKV]
+  | cons h t ih =>
+    simp only [insertKV]
+    split
+    · simp
+    · simp only [List.all_cons, ih]
+      cases p a <;> cases p h <;> simp
+
+theorem all_sortKV (p : KV → Bool) : ∀ l : List KV, (sortKV l).all p = l.all p := by
+  intro l
+  induction l with
+  | nil => rfl
+  | cons h t ih => simp [sortKV, all_insertKV, ih]
+
+theorem enforcesIntegrity_enfObs (e : Enf) : enforcesIntegrity (enfObs e) = true ↔ EnfIntegrity e := by
+  unfold enforcesIntegrity enfObs EnfIntegrity
+  rw [any_sortKV, all_sortKV]
+  simp only [Bool.and_eq_true, List.any_eq_true, List.mem_map, List.all_eq_true, Bool.or_eq_true,
+    bne_iff_ne, ne_eq, beq_iff_eq]
+  constructor
+  · rintro ⟨⟨kv, ⟨p, hp, rfl⟩, h1, h2⟩, h3⟩
+    refine ⟨?_, ?_⟩
+    · have : p = (Facts.typeIntegrity, Facts.actionEnforce) := by
+        obtain ⟨a, b⟩ := p; simp only at h1 h2; rw [h1, h2]
+      rw [← this]; exact hp
+    · intro q hq hq1
+      rcases h3 _ ⟨q, hq, rfl⟩ with h | h
+      · exact absurd hq1 h
+      · exact h
+  · rintro ⟨h1, h2⟩
+    refine ⟨⟨_, ⟨_, h1, rfl⟩, rfl, rfl⟩, ?_⟩
+    rintro kv ⟨q, hq, rfl⟩
+    by_cases hq1 : q.1 = Facts.typeIntegrity
+    · exact Or.inr (h2 q hq hq1)
+    · exact Or.inl hq1
+
+theorem zip_map_all {α β : Type} (f : α → β) (g : α × β → Bool) : ∀ l : List α,
+    (l.zip (l.map f)).all g = l.all (fun a => g (a, f a)) := by
+  intro l
+  induction l with
+  | nil => rfl
+  | cons h t ih => simp [ih]
+
+/-- **the model satisfies the property**, for every input -/
+theorem model_holds (i : Input) : Holds i (run i) = true := by
+  unfold Holds clauses run
+  cases hk : kindOf i.kind with
+  | none => simp [Clauses.holds]
+  | some k =>
+    simp only [Clauses.holds_cons, Clauses.holds_nil, Bool.and_true, isOk_validate, beq_self_eq_true,
+      Bool.true_and]
+    by_cases hw : WellFormed k i.doc
+    · have hv := (validate_iff_wellformed k i.doc).2 hw
+      simp only [hw, decide_true, Bool.not_true, Bool.false_or, if_true, levelsOf, List.length_map,
+        beq_self_eq_true, Bool.true_and, zip_map_all, List.all_eq_true, Bool.or_eq_true, beq_iff_eq]
+      intro s hs
+      obtain ⟨lv, hlv, hint⟩ := accepted_enforces_integrity k i.doc hv s hs
+      by_cases hsk : s.level = Facts.levelSkipName
+      · exact Or.inl hsk
+      · right
+        simp only [hlv]
+        exact (enforcesIntegrity_enfObs _).2 (hint hsk)
+    · simp [hw]
+
+/-! ### what the leaf predicates of `WellFormed` mean -/
+
+theorem cut_eq_some (sep : Char) : ∀ (t a b : Text),
+    cut sep t = some (a, b) ↔ t = a ++ sep :: b ∧ sep ∉ a := by
+  intro t
+  induction t with
+  | nil => intro a b; simp [cut]
+  | cons c cs ih =>
+    intro a b
+    simp only [cut]
+    by_cases hc : c = sep
+    · subst hc
+      simp only [beq_self_eq_true, if_true, Option.some.injEq, Prod.mk.injEq]
+      constructor
+      · rintro ⟨rfl, rfl⟩; simp
+      · rintro ⟨h1, h2⟩
+        cases a with
+        | nil => simp at h1; exact ⟨rfl, h1⟩
+        | cons x xs =>
+          simp only [List.cons_append, List.cons.injEq] at h1
+          exact absurd (by rw [h1.1]; exact List.mem_cons_self) h2
+    · have hb : (c == sep) = false := by simp [hc]
+      simp only [hb, Bool.false_eq_true, if_false, Option.map_eq_some_iff, Prod.mk.injEq, Prod.exists]
+      constructor
+      · rintro ⟨a', b', h, rfl, rfl⟩
+        obtain ⟨h1, h2⟩ := (ih a' b').1 h
+        refine ⟨by rw [h1]; rfl, ?_⟩
+        simp only [List.mem_cons, not_or]
+        exact ⟨fun h => hc h.symm, h2⟩
+      · rintro ⟨h1, h2⟩
+        cases a with
+        | nil => simp at h1; exact absurd h1.1 hc
+        | cons x xs =>
+          simp only [List.cons_append, List.cons.injEq] at h1
+          simp only [List.mem_cons, not_or] at h2
+          exact ⟨xs, b, (ih xs b).2 ⟨h1.2, h2.2⟩, by rw [h1.1], rfl⟩
+
+/-- a trust store value is acceptable iff it reads `type:name` (split at the first colon) with a
+supported store type and a file-name-safe name -/
+theorem storeOk_iff (t : Text) :
+    storeOk t = true ↔ ∃ ty nm, t = ty ++ ':' :: nm ∧ ':' ∉ ty ∧ ty ∈ Facts.trustStoreTypes ∧
+      isValidFileName nm = true := by
+  unfold storeOk
+  cases hc : cut ':' t with
+  | none =>
+    simp only [Bool.false_eq_true, false_iff, not_exists, not_and]
+    intro ty nm h1 h2
+    have := (cut_eq_some ':' t ty nm).2 ⟨h1, h2⟩
+    rw [hc] at this; cases this
+  | some p =>
+    obtain ⟨ty, nm⟩ := p
+    obtain ⟨h1, h2⟩ := (cut_eq_some ':' t ty nm).1 hc
+    simp only [Bool.and_eq_true, List.contains_iff_mem]
+    constructor
+    · rintro ⟨h3, h4⟩; exact ⟨ty, nm, h1, h2, h3, h4⟩
+    · rintro ⟨ty', nm', h1', h2', h3, h4⟩
+      have := (cut_eq_some ':' t ty' nm').2 ⟨h1', h2'⟩
+      rw [hc] at this
+      simp only [Option.some.injEq, Prod.mk.injEq] at this
+      rw [this.1, this.2]; exact ⟨h3, h4⟩
+
+/-- `pkix.IsSubsetDN` on maps with distinct keys: every attribute of the first name occurs, with
+the same value, in the second -/
+theorem isSubsetDN_iff (m1 m2 : DNMap) (h : (m2.map (·.1)).Nodup) :
+    isSubsetDN m1 m2 = true ↔ ∀ kv ∈ m1, kv ∈ m2 := by
+  unfold isSubsetDN
+  simp only [List.all_eq_true, beq_iff_eq]
+  constructor
+  · intro hs kv hkv
+    exact (lookup_eq_some kv.1 kv.2 m2 h).1 (hs kv hkv)
+  · intro hs kv hkv
+    exact (lookup_eq_some kv.1 kv.2 m2 h).2 (hs kv hkv)
+
+/-- two x509.subject identities with the same attribute set (in particular the same identity
+twice) overlap: such a statement is never well-formed -/
+theorem equal_names_overlap (ms : List DNMap) (i j : Nat) (hi : i < ms.length) (hj : j < ms.length)
+    (hij : i ≠ j) (hn : ((ms[j]?.getD []).map (·.1)).Nodup)
+    (heq : ∀ kv ∈ ms[i]?.getD [], kv ∈ ms[j]?.getD []) : ¬ NoOverlap ms := by
+  intro h
+  have := h i hi j hj hij
+  rw [(isSubsetDN_iff _ _ hn).2 heq] at this
+  cases this
+
+theorem matches_fail : ∀ l : List Char, Rx.matches .fail l = false := by
+  intro l
+  induction l with
+  | nil => rfl
+  | cons c cs ih => simpa [Rx.matches, Rx.deriv] using ih
+
+theorem matches_star_cls (items : List Item) : ∀ l : List Char,
+    Rx.matches (.star (.cls items)) l = l.all (fun c => items.any (·.has c)) := by
+  intro l
+  induction l with
+  | nil => rfl
+  | cons c cs ih =>
+    simp only [Rx.matches, Rx.deriv, List.all_cons]
+    cases h : items.any (·.has c) with
+    | true => simpa [mkSeq] using ih
+    | false => simp [mkSeq, matches_fail]
+
+theorem matches_plus_cls (items : List Item) (l : List Char) :
+    Rx.matches (.plus (.cls items)) l = (!l.isEmpty && l.all (fun c => items.any (·.has c))) := by
+  cases l with
+  | nil => rfl
+  | cons c cs =>
+    simp only [Rx.matches, Rx.deriv, List.all_cons, List.isEmpty_cons, Bool.not_false, Bool.true_and]
+    cases h : items.any (·.has c) with
+    | true => simpa [mkSeq] using matches_star_cls items cs
+    | false => simp [mkSeq, matches_fail]
+
+/-- the characters of a file-name-safe name -/
+def FileNameChar (c : Char) : Prop :=
+  ('a' ≤ c ∧ c ≤ 'z') ∨ ('A' ≤ c ∧ c ≤ 'Z') ∨ ('0' ≤ c ∧ c ≤ '9') ∨ c = '_' ∨ c = '.' ∨ c = '-'
+
+/-- a name is file-name-safe iff it is a non-empty text over letters, digits, '_', '.', '-' other
+than "." and ".." -/
+theorem isValidFileName_iff (n : Text) :
+    isValidFileName n = true ↔ n ≠ [] ∧ n ∉ Spec.fileNameRefused ∧ ∀ c ∈ n, FileNameChar c := by
+  unfold isValidFileName fileNameRx
+  rw [matches_plus_cls]
+  by_cases hr : n ∈ Spec.fileNameRefused
+  · simp [hr]
+  · have : Spec.fileNameRefused.contains n = false := by
+      cases hb : Spec.fileNameRefused.contains n with
+      | false => rfl
+      | true => exact absurd (by simpa using hb) hr
+    simp only [this, Bool.false_eq_true, if_false, Bool.and_eq_true, Bool.not_eq_true', hr,
+      not_false_eq_true, true_and, List.all_eq_true]
+    constructor
+    · rintro ⟨h1, h2⟩
+      refine ⟨(by intro h; rw [h] at h1; cases h1), fun c hc => ?_⟩
+      have := h2 c hc
+      simp only [List.any_cons, List.any_nil, Item.has, Bool.or_false, Bool.or_eq_true, Bool.and_eq_true,
+        decide_eq_true_eq, beq_iff_eq] at this
+      exact this
+    · rintro ⟨h1, h2⟩
+      have hne : n.isEmpty = false := by
+        cases hn : n with
+        | nil => exact absurd hn h1
+        | cons _ _ => rfl
+      refine ⟨hne, fun c hc => ?_⟩
+      have := h2 c hc
+      simp only [List.any_cons, List.any_nil, Item.has, Bool.or_false, Bool.or_eq_true, Bool.and_eq_true,
+        decide_eq_true_eq, beq_iff_eq]
+      exact this
+
+/-- in a well-formed identity list no x509.subject name's attribute set is contained in that of
+the name at another position (the declarative reading of "do not overlap") -/
+theorem identities_no_subset (ids : List Identity) (h : IdentitiesOk ids)
+    (i j : Nat) (a b : DNMap)
+    (ha : ((ids.filter isX509).map dnMapOf)[i]? = some a)
+    (hb : ((ids.filter isX509).map dnMapOf)[j]? = some b) (hij : i ≠ j) :
+    ¬ ∀ kv ∈ a, kv ∈ b := by
+  obtain ⟨_, hall, hno⟩ := h
+  intro hsub
+  have hi : i < ((ids.filter isX509).map dnMapOf).length := (List.getElem?_eq_some_iff.1 ha).1
+  have hj : j < ((ids.filter isX509).map dnMapOf).length := (List.getElem?_eq_some_iff.1 hb).1
+  have := hno i hi j hj hij
+  rw [ha, hb] at this
+  simp only [Option.getD_some] at this
+  have hbm : b ∈ (ids.filter isX509).map dnMapOf := List.mem_of_getElem? hb
+  obtain ⟨id, hid, rfl⟩ := List.mem_map.1 hbm
+  obtain ⟨hid1, hid2⟩ := List.mem_filter.1 hid
+  have hn := ((hall id hid1).2.2 hid2).2.2.2.2.1
+  rw [(isSubsetDN_iff a _ hn).2 hsub] at this
+  cases this
+/-- `file.IsValidFileName` refuses "." and ".." (repaired defect) -/
+theorem dot_names_refused : isValidFileName ['.'] = false ∧ isValidFileName ['.', '.'] = false := by
+  decide
+
+/-! ### non-vacuity -/
+
+def sampleStmt : Statement :=
+  { name := "wabbit", level := "strict", override := [⟨"revocation", "skip"⟩], verifyTimestamp := "always",
+    trustStores := ["ca:acme-rockets".toList, "ca:acme-rockets".toList],
+    identities := [⟨"x509.subject:C=US, ST=WA, O=acme".toList,
+      some [[⟨"C", "US"⟩], [⟨"ST", "WA"⟩], [⟨"O", "acme"⟩]]⟩],
+    scopes := ["registry.acme-rockets.io/software/net-monitor".toList], isGlobal := false }
+
+def sampleSkip : Statement :=
+  { name := "unsigned", level := "skip", override := [], verifyTimestamp := "",
+    trustStores := [], identities := [], scopes := [['*']], isGlobal := false }
+
+def sampleDoc : Doc := { version := "1.0", statements := [sampleStmt, sampleSkip] }
+
+/-- a well-formed OCI document is accepted, with duplicate trust stores and a revocation override -/
+example : isOk (validate .oci sampleDoc) = true := by decide
+example : WellFormed .oci sampleDoc := (validate_iff_wellformed _ _).1 ((isOk_iff _).1 (by decide))
+/-- the same statements as a blob document, the non-skip one global -/
+example : isOk (validate .blob { sampleDoc with statements := [{ sampleStmt with isGlobal := true }, sampleSkip] }) = true := by
+  decide
+/-- a global skip statement is refused (repaired defect) -/
+example : isOk (validate .blob { sampleDoc with statements := [sampleStmt, { sampleSkip with isGlobal := true }] }) = false := by
+  decide
+/-- the same scope twice in one statement is refused -/
+example : isOk (validate .oci { sampleDoc with statements :=
+    [{ sampleStmt with scopes := sampleStmt.scopes ++ sampleStmt.scopes }] }) = false := by decide
+/-- store name ".." is refused -/
+example : isOk (validate .oci { sampleDoc with statements :=
+    [{ sampleStmt with trustStores := ["ca:..".toList] }] }) = false := by decide
+/-- the same identity twice is an overlap -/
+example : isOk (validate .oci { sampleDoc with statements :=
+    [{ sampleStmt with identities := sampleStmt.identities ++ sampleStmt.identities }] }) = false := by decide
+
+def sampleInput : Input := { kind := "oci", doc := sampleDoc, rx := "", text := [] }
+
+example : Holds sampleInput (run sampleInput) = true := model_holds _
+example : (run sampleInput).okStruct = true := by decide
+/-- `Holds` is false of an implementation that rejects the well-formed document … -/
+example : Holds sampleInput { okStruct := false, okJson := false, okVerifier := false, levels := [] } = false := by
+  decide
+/-- … and of one that accepts it but lets the strict statement log integrity failures -/
+example : Holds sampleInput { (run sampleInput) with
+    levels := [[⟨"authenticTimestamp", "enforce"⟩, ⟨"authenticity", "enforce"⟩, ⟨"expiry", "enforce"⟩,
+      ⟨"integrity", "log"⟩, ⟨"revocation", "skip"⟩], (run sampleInput).levels.getD 1 []] } = false := by
+  decide
+/-- … and of one that accepts a document with an unsupported version -/
+example : Holds { sampleInput with doc := { sampleDoc with version := "2.0" } }
+    (run sampleInput) = false := by decide
 
 end NotationModel.C09
